@@ -199,6 +199,9 @@ class Lib:
         return self.run(req, strings)
 
 
+PB_WHAT = {'meson': 'default options', 'meson-release': 'buildtype=release, b_ndebug=true', 'meson-uchar': 'plain char unsigned, as on arm / ppc64le / s390x'}
+
+
 def independence(ck, prefix, config, jobs, orders=('given', 'reversed', 'last-argument-major', 'each-twice')):
     """The same calls in different ORDERS and WITHOUT an error slot must give bit-identical values.
     jobs: list of (name, args...).  Reports <prefix>:<fn>:result-depends-on-call-order / :value-without-error-slot-differs."""
@@ -236,26 +239,30 @@ def independence(ck, prefix, config, jobs, orders=('given', 'reversed', 'last-ar
                          '%s called directly (local error slot, -O2, public header) gives %r / error seen: %s; through the dispatch table %r / error: %s' % (
                              name, float(r6.v[k]), bool(r6.status[k] & 1), float(ref.v[k]), ref.msg(k) if ref.err[k] else 'none'),
                          dict(function=name, ints=q['i'][:3].tolist(), doubles=q['d'][:4].tolist(), config=config))
-        # the library as the project's own build system makes it (meson: its compiler arguments and options, not the monitor's): same bits.
-        # It runs inside a HOSTILE HOST: a preload object defines, as the host program's own globals, every name the library uses internally
-        # and does not export (build.hostile_host) - internals that are really internal never bind to them
-        try:
-            from . import build as _b
-            r5 = Lib(config, 'meson', shuffle=False, env={'LD_PRELOAD': _b.hostile_host(config)['so']}).run(req, strs); n += len(req)
-            bad = np.nonzero(((r5.v.view('u8') != ref.v.view('u8')) & ~(np.isnan(r5.v) & np.isnan(ref.v))) | (r5.status != ref.status))[0]
-            for k in bad[:2]:
-                q = req[k]
-                ck.violation('%s:%s:project-build-differs-from-the-monitor-build' % (prefix, name),
-                             '%s returns %r (status %d) in the library built by meson and %r (status %d) in the monitor\'s build of the same sources' % (
-                                 name, float(r5.v[k]), int(r5.status[k]), float(ref.v[k]), int(ref.status[k])),
-                             dict(function=name, ints=q['i'][:3].tolist(), doubles=q['d'][:4].tolist(), config=config, build='meson'))
-        except ExecCrash as ex:
-            host = [l for l in str(ex.tail).split('\n') if l.startswith('xv-hostile-host:')]
-            if host:
-                ck.violation('%s:%s:internal-symbol-pre-empted-by-the-host-program' % (prefix, name), '%s in the library built by meson: %s' % (name, host[0]),
-                             dict(function=name, config=config, build='meson', message=host[0]))
-            else:
-                ck.violation('%s:%s:project-build-dies' % (prefix, name), '%s kills the executor (rc %d) in the library built by meson' % (name, ex.rc), dict(function=name, config=config, build='meson'))
+        # the library as the project's own build system makes it (meson: its compiler arguments and options, not the monitor's): same bits - in the
+        # default configuration, in an optimised build without assertions (buildtype=release, b_ndebug=true) and with the ABI of the platforms
+        # whose plain char is unsigned (-funsigned-char).  It runs inside a HOSTILE HOST: a preload object defines, as the host program's own
+        # globals, every name the library uses internally and does not export (build.hostile_host) - internals that are really internal never
+        # bind to them
+        from . import build as _b
+        for pb in _b.PROJECT_BUILDS:
+            try:
+                r5 = Lib(config, pb, shuffle=False, env={'LD_PRELOAD': _b.hostile_host(config)['so']}).run(req, strs); n += len(req)
+                bad = np.nonzero(((r5.v.view('u8') != ref.v.view('u8')) & ~(np.isnan(r5.v) & np.isnan(ref.v))) | (r5.status != ref.status))[0]
+                for k in bad[:2]:
+                    q = req[k]
+                    ck.violation('%s:%s:project-build-differs-from-the-monitor-build%s' % (prefix, name, '' if pb == 'meson' else ':' + pb[6:]),
+                                 '%s returns %r (status %d) in the library built by meson (%s) and %r (status %d) in the monitor\'s build of the same sources' % (
+                                     name, float(r5.v[k]), int(r5.status[k]), PB_WHAT[pb], float(ref.v[k]), int(ref.status[k])),
+                                 dict(function=name, ints=q['i'][:3].tolist(), doubles=q['d'][:4].tolist(), config=config, build=pb))
+            except ExecCrash as ex:
+                host = [l for l in str(ex.tail).split('\n') if l.startswith('xv-hostile-host:')]
+                if host:
+                    ck.violation('%s:%s:internal-symbol-pre-empted-by-the-host-program' % (prefix, name), '%s in the library built by meson (%s): %s' % (name, PB_WHAT[pb], host[0]),
+                                 dict(function=name, config=config, build=pb, message=host[0]))
+                else:
+                    ck.violation('%s:%s:project-build-dies%s' % (prefix, name, '' if pb == 'meson' else ':' + pb[6:]), '%s kills the executor (rc %d) in the library built by meson (%s)' % (name, ex.rc, PB_WHAT[pb]),
+                                 dict(function=name, config=config, build=pb))
         # a host that traps floating-point exceptions (feenableexcept, gfortran -ffpe-trap): every call still answers, with the same bits
         try:
             r4 = Lib(config, shuffle=False, env={'XV_FPTRAP': '1'}).run(req, strs); n += len(req)
